@@ -47,8 +47,8 @@ def main():
     model = []
     shard = 150; tm = 0.0
     for a in range(0, len(cases), shard):
-        src = "From Coq Require Import List Floats Bool. From OmplV Require Import ConstraintRun. Import ListNotations.\nLocal Open Scope float_scope.\nDefinition b2l (r : bool * list (list float)) : list (list float) := [if fst r then 1 else 0] :: snd r.\nEval vm_compute in [\n"
-        src += ";\n".join("b2l (geo_run %s %s %s %s [%s] [%s])" % (cq(tol), cq(delta), cq(lam), "true" if ipol else "false", "; ".join(cq(x) for x in f), "; ".join(cq(x) for x in t)) for tol, delta, lam, ipol, f, t in cases[a:a + shard]) + "].\n"
+        src = "From Coq Require Import List Floats Bool. From OmplV Require Import ConstraintRun. Import ListNotations.\nLocal Open Scope float_scope.\nDefinition b2l (r : bool * list (list float)) : list (list float) := [if fst r then 1 else 0] :: snd r.\nDefinition TS : list float := [0; 0.1; 0x1.5555555555555p-2; 0.5; 0.9; 1].\nEval vm_compute in [\n"
+        src += ";\n".join("b2l (geo_run %s %s %s %s [%s] [%s]) ++ [[9]] ++ map (interp_run %s %s %s [%s] [%s]) TS" % (cq(tol), cq(delta), cq(lam), "true" if ipol else "false", "; ".join(cq(x) for x in f), "; ".join(cq(x) for x in t), cq(tol), cq(delta), cq(lam), "; ".join(cq(x) for x in f), "; ".join(cq(x) for x in t)) for tol, delta, lam, ipol, f, t in cases[a:a + shard]) + "].\n"
         path = os.path.join(c.outdir, "cases_c16_%d.v" % a); open(path, "w").write(src)
         rc2, o2, e2, s2 = vf.sh("timeout 1500 coqc -Q %s OmplV %s" % (vf.COQ, path), timeout=1600); tm += s2
         if rc2 != 0: c.broken.append("model evaluation (coqc %s) failed: %s" % (os.path.basename(path), (e2 or o2)[-300:])); break
@@ -57,11 +57,17 @@ def main():
     for k, (l, case) in enumerate(zip(lines, cases)):
         a = impl[k] if k < len(impl) else ""
         w = a.split("|")
-        if len(w) != 2 or not w[0].startswith("geo"): pred(l, "no observation: " + a[:80]); continue
+        if len(w) != 3 or not w[0].startswith("geo"): pred(l, "no observation: " + a[:80]); continue
         ok = w[0].split()[1] == "1"; states = [[int(x, 16) for x in blk.split()] for blk in w[1].split(";") if blk.strip()]
+        ints = [[int(x, 16) for x in blk.split()] for blk in w[2].replace("INT", "").split(";") if blk.strip()]
         stats["geodesics"] += 1; stats["success" if ok else "failure"] += 1; stats["states"] += len(states)
         if k < len(model):
-            m = model[k]; mok = m[0][0] == 1.0; mstates = [[bits(x) for x in st] for st in m[1:]]
+            m = model[k]; mok = m[0][0] == 1.0
+            sep = m.index([9.0]) if [9.0] in m else len(m)
+            mstates = [[bits(x) for x in st] for st in m[1:sep]]; mints = [[bits(x) for x in st] for st in m[sep + 1:]]
+            if mints != ints:
+                ndiff += 1
+                if first_diff is None or len(l) < len(first_diff[0]): first_diff = (l, "interpolate at 0, .1, 1/3, .5, .9, 1: %s" % ints, "model: %s" % mints)
             if mok != ok or mstates != states:
                 ndiff += 1
                 if first_diff is None or len(l) < len(first_diff[0]): first_diff = (l, "%d states, ok=%s" % (len(states), ok), "%d states, ok=%s" % (len(mstates), mok))
@@ -69,6 +75,8 @@ def main():
         tol, delta, lam, ipol, f, t = case
         fl = lambda h: struct.unpack("<d", struct.pack("<Q", h))[0]
         pts = [[fl(h) for h in st] for st in states]
+        for q in ints:
+            if abs(fl(q[2])) > tol and abs(f[2]) <= tol: pred(l, "an interpolated state violates the constraint: |x2| = %g > tolerance %g" % (abs(fl(q[2])), tol)); break
         for i, p in enumerate(pts[1:], 1):
             if abs(p[2]) > tol: pred(l, "geodesic state %d violates the constraint: |x2| = %g > tolerance %g" % (i, abs(p[2]), tol)); break
             d = math.dist(pts[i - 1], p)
